@@ -16,7 +16,8 @@ structure Sess where
   enc : Option Crypto.Cfb8State
   dec : Option Crypto.Cfb8State
 
-/-- one op: `w <plain> <sched…>` | `s <secret>` | `r <chunk|p>…` -/
+/-- one op: `w <plain> <sched…>` | `s <secret>` | `r <chunk|p>…` | `h` (the sending side is shut down: a half-close
+    changes neither cipher state) -/
 def stepOp (s : Sess) : List String → Option (Sess × String)
   | "w" :: plain :: sch => do
     let b ← hex? plain
@@ -27,6 +28,7 @@ def stepOp (s : Sess) : List String → Option (Sess × String)
     let k ← hex? secret
     let st ← Crypto.cfb8Init k k
     some (⟨some st, some st⟩, "s")
+  | ["h"] => some (s, "h")
   | "r" :: chunks => do
     let sch ← chunks.mapM parseR
     let r := readAll aesCfb8 s.dec sch
